@@ -247,9 +247,10 @@ Definition session_close (y : sys) (s : side) (ch : list N) : sys * list N * lis
     let y1 := set_sess y s se in
     let '(c, ch') := hd_pick ch in
     let '(y2, evs, rc) := sb_send y1 s (mkW 4294967295 0 2 []) c in
-    if rc =? 0 then let '(y3, evs') := close_all y2 s in (y3, ch', evs ++ evs', R_OK)
-    else if rc =? 1 then (y2, ch, evs, R_ERR)
-    else (y2, ch', evs, R_ERR).
+    let '(y3, evs') := close_all y2 s in   (* the connections are closed whether or not the notice could be sent *)
+    if rc =? 0 then (y3, ch', evs ++ evs', R_OK)
+    else if rc =? 1 then (y3, ch, evs ++ evs', R_ERR)
+    else (y3, ch', evs ++ evs', R_ERR).
 
 (* Session.closeStream *)
 Definition close_stream (y : sys) (s : side) (sid : N) (active : bool) (ch : list N)
